@@ -87,6 +87,11 @@ def build(lib):
     reg('dstack', lambda it, a, k: L.np_dstack(it, a[0]))
     reg('mean', lambda it, a, k: L.arr_mean(it, a[0] if isinstance(a[0], SArr) else as_array(it, a[0]), k.get('axis', a[1] if len(a) > 1 else None)))
 
+    reg('arange', lambda it, a, k: SArr((a[0],), lambda o: o[0], 'int') if len(a) == 1 else (_ for _ in ()).throw(Unsupported('np.arange(start, stop)')),
+        "np.arange(n): the integers 0..n-1")
+    reg('kron', lambda it, a, k: L.np_kron(it, a[0], a[1]))
+    reg('bmat', lambda it, a, k: L.np_bmat(it, a[0]))
+
     def _where(it, a, k):
         """np.where(cond) for a rank-1 boolean array: a 1-tuple holding the increasing indices where cond is true"""
         cond = a[0]
